@@ -1,0 +1,33 @@
+//go:build verif
+
+// Contracts for govc (contract-based deductive verification, see /verif/DESIGN.md).
+// Comment-only file: it adds no code and is compiled only with -tags verif.
+
+package clickhouse_planner
+
+// The 15-second shortcut answers rate / count_over_time from the pre-aggregated
+// metrics_15s table and plans NO pipeline stage at all. It may therefore only
+// be taken when no stage written in the query has an effect.
+// (A line filter is allowed when it is the empty string; that clause is
+// decided by the code through QuotedString.Unquote and not restated here.)
+//@ spec fn noEffect(p *logql_parser.StrSelectorPipeline) bool = isnil(p.LabelFilter) && isnil(p.Parser) && isnil(p.LineFormat) && isnil(p.LabelFormat) && isnil(p.Unwrap) && isnil(p.Drop)
+
+//@ func (*github.com/metrico/qryn/reader/logql/logql_parser.QuotedString).Unquote
+//@   modifies nothing
+
+// reflection-based AST search (not verified): touches nothing
+//@ func findFirst
+//@   modifies nothing
+
+//@ func AnalyzeMetrics15sShortcut [C08]
+//@   modifies nothing
+//@   check every-stage-takes-effect: result ==> !isnil(lraOrUnwrap) && (forall i int :: 0 <= i && i < len(lraOrUnwrap.StrSel.Pipelines) ==> noEffect(lraOrUnwrap.StrSel.Pipelines[i]))
+//@   loop 1:
+//@     invariant forall i int :: 0 <= i && i <= rangeindex && i < len(lraOrUnwrap.StrSel.Pipelines) ==> noEffect(lraOrUnwrap.StrSel.Pipelines[i])
+//@     modifies nothing
+//@   replay:
+//@     import "github.com/metrico/qryn/reader/logql/logql_parser"
+//@     go: script, err := logql_parser.Parse(`rate({a="b"} | level="x" [1m])`)
+//@     go: if err != nil { panic(err) }
+//@     go: if AnalyzeMetrics15sShortcut(script) { confirm(`rate({a="b"} | level="x" [1m]) takes the 15s shortcut: the label filter level="x" is silently ignored`) }
+//@   end
